@@ -13,8 +13,8 @@ import (
 const mdP = "kvdb/multidb."
 
 func init() {
-	register("C26", "other", "T10 MapOrder, T11 Determinism effects, T2 Dominates (conflict loop before recording), T8 DecisionTable (field coverage in verification)",
-		"Decides the structural conditions of deterministic, isolating routing: nothing reachable from NewProducer/RouteOf/OpenDB/Verify in the multidb and fmtfilter packages draws randomness or time, and no map is ranged over in a way that lets the iteration order reach the result — in particular the pattern routes, which RouteOf tries first-match, must not be kept in map iteration order; a request is recorded (WriteTablesList) only after the complete conflict loop, in which a request recorded with a different table and a table that is a prefix of / prefixed by a recorded table both lead only to errors, and the conflict test is the symmetric prefix test; OpenDB hands out a store only after handleRoute returned nil and wraps it with the routed table; verification compares type, name and table of every recorded request with its current route. The behaviour of Sscanf-based pattern matching itself is not decided.",
+	register("C26", "other", "T10 MapOrder, T11 Determinism effects, T2 Dominates (conflict loop before recording), T8 DecisionTable (scenario form: feasible paths under a valuation of the semantic atoms; field coverage in verification)",
+		"Decides the structural conditions of deterministic, isolating routing: nothing reachable from NewProducer/RouteOf/OpenDB/Verify in the multidb and fmtfilter packages draws randomness or time, and no map is ranged over in a way that lets the iteration order reach the result — in particular the pattern routes, which RouteOf tries first-match, must not be kept in map iteration order; in RouteOf a pattern is tried only after the exact table had no entry, and after a pattern matched no further pattern is tried for the same request; a request is recorded (WriteTablesList) only after the complete scan over the recorded requests, in which — for every element, however the tests are nested or spelled — a recorded table that is a prefix of / prefixed by the routed table of another request, and the same request with a different table, leave the iteration only through error returns, while the same request with the same table is never refused; the conflict test returns true whenever one table is a prefix of the other; OpenDB hands out a store only after handleRoute returned nil and wraps it with the routed table; verification compares type, name and table of every recorded request with its current route. The behaviour of Sscanf-based pattern matching itself is not decided.",
 		[]string{"fmt.Sscanf/Sprintf are deterministic", "producers of the individual database types are opaque"},
 		runC26)
 }
@@ -46,9 +46,14 @@ func runC26(c *core.Ctx) {
 		}
 		c.ExpectAtLeast("functions on the routing path", n, 8)
 		c.ExpectAtLeast("map ranges on the routing path", nRanges, 2)
-		// the pattern list is consumed first-match: its only writer besides the constructor literal must be sorted (covered above);
+		// the pattern list is consumed first-match: it is built by the constructor (whose map ranges are
+		// covered above, whether it fills a local that goes into the literal or the field itself);
 		// nobody else writes it
+		ctor := c.Fn(mdP + "NewProducer")
 		for _, f := range p.FuncsInPkg("kvdb/multidb") {
+			if f == ctor {
+				continue
+			}
 			for _, a := range assignsToField(f, mdP+"Producer.routingFmt") {
 				c.Fail("routingFmt written in "+short(f.Name), "T6 WhoMayWrite", a.Stmt.Pos(), "the pattern list is modified after construction")
 			}
@@ -56,206 +61,23 @@ func runC26(c *core.Ctx) {
 	})
 
 	c.Clause("C26.route", func() {
-		f := c.Fn(mdP + "Producer.RouteOf")
-		// exact table first, patterns only on the !ok edge, first match wins (loop condition contains !ok)
-		var okVar *types.Var
-		for _, a := range assignments(f) {
-			if as, isAs := a.Stmt.(*ast.AssignStmt); isAs && len(as.Lhs) == 2 && len(as.Rhs) == 1 {
-				if ix, k := ast.Unparen(as.Rhs[0]).(*ast.IndexExpr); k && fieldNameOf(f, ix.X) == mdP+"Producer.routingTable" {
-					okVar = varOf(f, as.Lhs[1])
-				}
-			}
-		}
-		c.Need(okVar != nil, "dest, ok := routingTable[req]")
-		tries := f.CallsTo(mdP + "scanfRoute.Name")
-		c.ExpectAtLeast("pattern attempts in RouteOf", len(tries), 1)
-		for _, t := range tries {
-			ok, wit := f.GuardedBy(t.Pt, func(ft core.Fact) bool {
-				cm, k := core.NormCmp(ft)
-				return k && cm.R == nil && cm.Op == token.NEQ && varOf(f, cm.L) == okVar
-			})
-			if ok && f.CanReach(t.Pt, t.Pt) {
-				ok, wit = f.GuardedBetween(t.Pt, t.Pt, func(ft core.Fact) bool {
-					cm, k := core.NormCmp(ft)
-					return k && cm.R == nil && cm.Op == token.NEQ && varOf(f, cm.L) == okVar
-				})
-			}
-			c.Check(ok, "exact route wins, first matching pattern wins", "T4 GuardedBy", t.Pos(), "a pattern is tried only while no route has been found", "a pattern can override an exact or earlier match: "+f.DescribePath(wit))
-		}
+		c26Route(c, c.Fn(mdP+"Producer.RouteOf"))
 	})
 
 	c.Clause("C26.conflict", func() {
-		f := c.Fn(mdP + "Producer.handleRoute")
-		req, route := f.Param(1), f.Param(2)
-		writes := f.CallsTo(mdP + "WriteTablesList")
-		c.Need(len(writes) == 1, "handleRoute records with one WriteTablesList")
-		var loop *ast.RangeStmt
-		f.InspectOwn(func(n ast.Node) bool {
-			if rs, ok := n.(*ast.RangeStmt); ok && loop == nil {
-				loop = rs
-			}
-			return true
-		})
-		c.Need(loop != nil, "handleRoute scans the recorded requests")
-		done, complete := loopDone(f, loop)
-		ok, _ := mustPassBlockBefore(f, done, writes[0].Pt)
-		c.Check(ok && complete, "request recorded only after the complete conflict scan", "T2 Dominates (loop exit)", writes[0].Pos(), "WriteTablesList is dominated by the exit of the loop over all recorded requests", "a request can be recorded before every existing record was checked for conflicts")
-		// the scanned list is what ReadTablesList returned from this database
-		lv := varOf(f, loop.X)
-		okSrc := false
-		if lv != nil {
-			for _, a := range assignsToVar(f, lv) {
-				if a.RHS != nil && isCallTo(f, a.RHS, mdP+"ReadTablesList") != nil {
-					okSrc = true
-				}
-			}
-		}
-		c.Check(okSrc, "scan covers the database's recorded requests", "provenance", loop.Pos(), "the loop ranges over ReadTablesList(db, key)", "the conflict scan does not range over the recorded requests")
-		old := varOf(f, loop.Value)
-		errRet := func(r *ast.ReturnStmt) bool { return len(r.Results) == 1 && !core.IsNil(f.Info(), r.Results[0]) }
-		// conflict => error
-		edges := edgesWithFact(f, func(ft core.Fact) bool {
-			if !ft.Truth {
-				return false
-			}
-			call := isCallTo(f, ft.Expr, mdP+"tablesConflicting")
-			if call == nil || len(call.Args) != 2 {
-				return false
-			}
-			isOld := func(e ast.Expr) bool {
-				r, pth := fieldPath(f, e)
-				return len(pth) == 1 && pth[0] == mdP+"TableRecord.Table" && varOf(f, r) == old
-			}
-			isNew := func(e ast.Expr) bool {
-				r, pth := fieldPath(f, e)
-				return len(pth) == 1 && pth[0] == mdP+"Route.Table" && varOf(f, r) == route
-			}
-			return (isOld(call.Args[0]) && isNew(call.Args[1])) || (isNew(call.Args[0]) && isOld(call.Args[1]))
-		})
-		_ = edges
-		// the early "same request, same table" acceptance is itself a rejecting-free exit: treat it as
-		// rejecting for this row (it is checked separately below)
-		sameEarly := func(r *ast.ReturnStmt) bool {
-			if errRet(r) {
-				return true
-			}
-			return enclosingLoop(f, r.Pos()) != nil
-		}
-		isConflict := func(ft core.Fact) bool {
-			if !ft.Truth {
-				return false
-			}
-			call := isCallTo(f, ft.Expr, mdP+"tablesConflicting")
-			if call == nil || len(call.Args) != 2 {
-				return false
-			}
-			isOld := func(e ast.Expr) bool {
-				r, pth := fieldPath(f, e)
-				return len(pth) == 1 && pth[0] == mdP+"TableRecord.Table" && varOf(f, r) == old
-			}
-			isNew := func(e ast.Expr) bool {
-				r, pth := fieldPath(f, e)
-				return len(pth) == 1 && pth[0] == mdP+"Route.Table" && varOf(f, r) == route
-			}
-			return (isOld(call.Args[0]) && isNew(call.Args[1])) || (isNew(call.Args[0]) && isOld(call.Args[1]))
-		}
-		okC, why := rejectedWhen(f, isConflict, sameEarly)
-		c.Check(okC, "overlapping table => refused", "T8 DecisionTable", f.Pos(), "tablesConflicting(old.Table, route.Table) leads only to error returns, and every recorded request passes that test before the scan moves on", "a request whose table overlaps a recorded table can be accepted: "+why)
-		// the only nil return inside the loop requires same req and same table
-		sameReq := func(ft core.Fact) bool {
-			cm, k := core.NormCmp(ft)
-			if !k || cm.R == nil || cm.Op != token.EQL {
-				return false
-			}
-			is := func(a, b ast.Expr) bool {
-				r, pth := fieldPath(f, a)
-				return len(pth) == 1 && pth[0] == mdP+"TableRecord.Req" && varOf(f, r) == old && varOf(f, b) == req
-			}
-			return is(cm.L, cm.R) || is(cm.R, cm.L)
-		}
-		sameTable := func(ft core.Fact) bool {
-			cm, k := core.NormCmp(ft)
-			if !k || cm.R == nil || cm.Op != token.EQL {
-				return false
-			}
-			is := func(a, b ast.Expr) bool {
-				r, pth := fieldPath(f, a)
-				r2, p2 := fieldPath(f, b)
-				return len(pth) == 1 && pth[0] == mdP+"TableRecord.Table" && varOf(f, r) == old && len(p2) == 1 && p2[0] == mdP+"Route.Table" && varOf(f, r2) == route
-			}
-			return is(cm.L, cm.R) || is(cm.R, cm.L)
-		}
-		nNil := 0
-		for _, rp := range returnsWith(f, 0, func(e ast.Expr) bool { return core.IsNil(f.Info(), e) }) {
-			if enclosingLoop(f, posOf(rp)) == nil {
-				continue
-			}
-			nNil++
-			o1, _ := f.GuardedBy(rp, sameReq)
-			o2, _ := f.GuardedBy(rp, sameTable)
-			c.Check(o1 && o2, "re-opening accepted only for the same request and table", "T4 GuardedBy", posOf(rp), "the early nil return needs old.Req == req and old.Table == route.Table", "a request can be accepted early although request or table differ from the record")
-		}
-		// same req, different table => error
-		diffEdges := 0
-		for _, b := range f.CFG().Blocks {
-			cond := f.BranchCond(b)
-			if cond == nil || !b.Live {
-				continue
-			}
-			facts := f.EdgeFacts(b, 0)
-			hasReq, hasDiff := false, false
-			for _, ft := range facts {
-				if sameReq(ft) {
-					hasReq = true
-				}
-				if sameTable(core.Fact{Expr: ft.Expr, Truth: !ft.Truth}) {
-					hasDiff = true
-				}
-			}
-			if hasReq && hasDiff {
-				diffEdges++
-				o, _ := edgeLeadsOnlyTo(f, b, 0, errRet)
-				c.Check(o, "re-assigning a request's table => refused", "T8 DecisionTable", cond.Pos(), "same request with a different table leads only to error returns", "a request can be re-routed to a different table of the same database")
-			}
-		}
-		c.ExpectAtLeast("same-request/different-table tests", diffEdges, 1)
-		// tablesConflicting is the symmetric prefix test
-		tc := c.Fn(mdP + "tablesConflicting")
-		a, b := tc.Param(0), tc.Param(1)
-		okSym := false
-		for _, rp := range tc.ReturnPoints() {
-			r := rp.Node().(*ast.ReturnStmt)
-			if len(r.Results) != 1 {
-				continue
-			}
-			be, isB := ast.Unparen(r.Results[0]).(*ast.BinaryExpr)
-			if !isB || be.Op != token.LOR {
-				continue
-			}
-			x, y := isCallTo(tc, be.X, "strings.HasPrefix"), isCallTo(tc, be.Y, "strings.HasPrefix")
-			if x != nil && y != nil {
-				ab := varOf(tc, x.Args[0]) == a && varOf(tc, x.Args[1]) == b && varOf(tc, y.Args[0]) == b && varOf(tc, y.Args[1]) == a
-				ba := varOf(tc, x.Args[0]) == b && varOf(tc, x.Args[1]) == a && varOf(tc, y.Args[0]) == a && varOf(tc, y.Args[1]) == b
-				okSym = ab || ba
-			}
-		}
-		c.Check(okSym, "conflict test is the symmetric prefix test", "T13/T8", tc.Pos(), "HasPrefix(a,b) || HasPrefix(b,a)", "tablesConflicting is not the symmetric prefix test: nested key spaces can be handed out")
+		c26Conflict(c, c.Fn(mdP+"Producer.handleRoute"))
 	})
 
 	c.Clause("C26.open", func() {
 		f := c.Fn(mdP + "Producer.OpenDB")
 		hr := f.CallsTo(mdP + "Producer.handleRoute")
-		c.Need(len(hr) == 1, "OpenDB calls handleRoute once")
-		rv := varOf(f, hr[0].Call.Args[2])
-		okR := false
-		if rv != nil {
-			for _, a := range assignsToVar(f, rv) {
-				if call := isCallTo(f, a.RHS, mdP+"Producer.RouteOf"); call != nil && a.RHS != nil && varOf(f, call.Args[0]) == f.Param(0) {
-					okR = true
-				}
-			}
+		c.Need(len(hr) == 1 && len(hr[0].Call.Args) == 3, "OpenDB calls handleRoute once")
+		// the route handed to handleRoute is RouteOf(req) — directly or through a local
+		isRouteOfReq := func(e ast.Expr) bool {
+			call := isCallTo(f, e, mdP+"Producer.RouteOf")
+			return call != nil && len(call.Args) == 1 && varOf(f, resolveLocal(f, call.Args[0])) == f.Param(0)
 		}
-		c.Check(okR && varOf(f, hr[0].Call.Args[1]) == f.Param(0), "route checked is the route of the request", "provenance", hr[0].Pos(), "handleRoute(db, req, RouteOf(req))", "handleRoute is given a different request or route")
+		c.Check(isRouteOfReq(hr[0].Call.Args[2]) && varOf(f, resolveLocal(f, hr[0].Call.Args[1])) == f.Param(0), "route checked is the route of the request", "provenance", hr[0].Pos(), "handleRoute(db, req, RouteOf(req))", "handleRoute is given a different request or route")
 		n := 0
 		for _, rp := range returnsWith(f, 0, func(e ast.Expr) bool { return !core.IsNil(f.Info(), e) }) {
 			n++
@@ -268,7 +90,7 @@ func runC26(c *core.Ctx) {
 			if len(cs.Call.Args) == 2 {
 				inner := core.StripConv(f.Info(), cs.Call.Args[1])
 				r, pth := fieldPath(f, inner)
-				if len(pth) == 1 && pth[0] == mdP+"Route.Table" && varOf(f, r) == rv {
+				if len(pth) == 1 && pth[0] == mdP+"Route.Table" && isRouteOfReq(r) {
 					okT = true
 				}
 			}
@@ -310,16 +132,14 @@ func runC26(c *core.Ctx) {
 			}, errRet)
 			c.Check(ok, "changed "+w.name+" => verification fails", "T8 field coverage", f.Pos(), "a differing "+w.name+" leads only to error returns and every record passes that test", "verification does not fail when the "+w.name+" of a recorded request changed: "+why)
 		}
-		// loops are complete (every record of every database is checked)
+		// loops are complete (every record of every database is checked), in range or counted form
 		n := 0
-		f.InspectOwn(func(nd ast.Node) bool {
-			if rs, ok := nd.(*ast.RangeStmt); ok {
-				n++
-				_, complete := loopDone(f, rs)
-				c.Check(complete, fmt.Sprintf("verification loop %d is complete", n), "T2 (loop)", rs.Pos(), "left only by returning an error or when exhausted", "verification can stop early without an error")
-			}
-			return true
-		})
+		resolve := func(e ast.Expr) ast.Expr { return resolveLocal(f, e) }
+		for _, lp := range c26Loops(f) {
+			n++
+			it, isIt := core.IterationOf(f, lp, resolve)
+			c.Check(isIt && c26FullIteration(it), fmt.Sprintf("verification loop %d is complete", n), "T2 (loop)", lp.Pos(), "visits every element; left only by returning an error or when exhausted", "verification can stop early (or skip records) without an error")
+		}
 		c.ExpectAtLeast("verification loops", n, 2)
 	})
 }
